@@ -44,7 +44,7 @@ func (impl Implementation) Dgesv(n, nrhs int, a []float64, lda int, ipiv []int, 
 
 	switch {
 	case len(a) < (n-1)*lda+n:
-		panic(shortAB)
+		panic(shortA)
 	case len(ipiv) != n:
 		panic(badLenIpiv)
 	case len(b) < (n-1)*ldb+nrhs:
